@@ -348,6 +348,7 @@ func propC03() *PropSpec {
 			js = append(js, jobsN("html", "VerifHTMLInputValue", rng(0, 3), "n = 0: <input type=T value=\"\"> for 18 types x attribute order (the empty value stays where a missing one means \"on\" or a default label); n >= 1: 9 free-text / regex attributes with n units of spaces, tabs and letters: value unchanged")...)
 			js = append(js, jobsN("html", "VerifHTMLBodyStart", []int{0}, "4 head parts x 4 fillers x 12 first body children (script, style, link, meta, noscript, template, base, title, p, text, div) x KeepComments / KeepDocumentTags / KeepEndTags / KeepWhitespace: the child is parsed into the body again")...)
 			js = append(js, jobsN("html", "VerifHTMLTableSections", pick(rng(1, 3), rng(1, 4)), "a table of n parts out of 7 (thead / tbody / tfoot with rows, bare rows, comments, white space) x KeepComments / KeepEndTags / KeepWhitespace: same row groups (reference: the in-table insertion modes)")...)
+			js = append(js, jobsN("html", "VerifHTMLDoctypeMode", []int{0}, "18 doctypes (HTML5, legacy-compat, HTML 2.0 / 3.2 / 4.0 / 4.01 and XHTML 1.0 / 1.1 strict, transitional, frameset, unknown names) x 3 prefixes x options: the document mode selected (quirks / limited-quirks / no-quirks, HTML 13.2.6.4.1) is unchanged")...)
 			js = append(js, jobsN("html", "VerifHTMLCommentLookahead", []int{0}, "6 openers whose end tag omission depends on the next element x 5 comment / white space fillers x 13 continuations (elements, script, template) x options: same tree")...)
 			js = append(js, jobsN("html", "VerifHTMLCaseAttr", pick(rng(0, 2), rng(0, 3)), "20 tag/attribute pairs with case-sensitive values (list type, form values, labels, ids): value kept exactly")...)
 			js = append(js, jobsN("html", "VerifHTMLNonDefaults", []int{0}, "18 tag/attribute/value triples where the value is not the default (formmethod, formenctype, type, method ...): attribute kept")...)
